@@ -160,6 +160,8 @@ pub struct StateStore {
     checkpoints: Arc<RwLock<Vec<CheckpointMetadata>>>,
     /// Last checkpoint time
     last_checkpoint: Arc<RwLock<u64>>,
+    /// Millisecond and sequence number of the last checkpoint id handed out
+    last_checkpoint_id: Option<(u128, u32)>,
     /// Redis connection (if using Redis backend)
     #[cfg(feature = "streaming-redis")]
     redis_client: Option<Arc<RwLock<Client>>>,
@@ -191,6 +193,7 @@ impl StateStore {
             state: Arc::new(RwLock::new(HashMap::new())),
             checkpoints: Arc::new(RwLock::new(Vec::new())),
             last_checkpoint: Arc::new(RwLock::new(0)),
+            last_checkpoint_id: None,
             #[cfg(feature = "streaming-redis")]
             redis_client,
         }
@@ -487,15 +490,45 @@ impl StateStore {
         count
     }
 
+    /// Pick the id of a new checkpoint.
+    ///
+    /// Ids are `checkpoint_<ms>`. Several checkpoints can be taken within one
+    /// millisecond, and the directory of the file backend can hold checkpoints
+    /// written by an earlier process, so an id that was already handed out in
+    /// this millisecond, is still listed or names an existing directory gets a
+    /// `_<n>` suffix: a new checkpoint never shares (and overwrites) the
+    /// directory of another one.
+    fn next_checkpoint_id(&mut self, now_ms: u128) -> String {
+        let mut seq = match self.last_checkpoint_id {
+            Some((ms, seq)) if ms == now_ms => seq + 1,
+            _ => 0,
+        };
+        loop {
+            let id = if seq == 0 {
+                format!("checkpoint_{}", now_ms)
+            } else {
+                format!("checkpoint_{}_{}", now_ms, seq)
+            };
+            let listed = self.checkpoints.read().unwrap().iter().any(|c| c.id == id);
+            let on_disk = match &self.config.backend {
+                StateBackend::File { path } => path.join(&id).exists(),
+                _ => false,
+            };
+            if !listed && !on_disk {
+                self.last_checkpoint_id = Some((now_ms, seq));
+                return id;
+            }
+            seq += 1;
+        }
+    }
+
     /// Create a checkpoint of current state
     pub fn checkpoint(&mut self, name: impl Into<String>) -> StateResult<String> {
-        let checkpoint_id = format!(
-            "checkpoint_{}",
-            SystemTime::now()
-                .duration_since(UNIX_EPOCH)
-                .unwrap()
-                .as_millis()
-        );
+        let now_ms = SystemTime::now()
+            .duration_since(UNIX_EPOCH)
+            .unwrap()
+            .as_millis();
+        let checkpoint_id = self.next_checkpoint_id(now_ms);
         #[cfg(feature = "verif-hooks")]
         let checkpoint_id = match crate::verif_hooks::clock_ms() {
             Some(ms) => format!("checkpoint_{}", ms),
